@@ -223,7 +223,18 @@ func (cg *BasicConnectionGater) ListBlockedAddrs() []net.IP {
 
 // BlockSubnet adds an IP subnet to the set of blocked addresses.
 // Note: active connections to the IP subnet are not automatically closed.
+// maskedSubnet returns ipnet with the host bits of its address cleared, which is
+// the form net.ParseCIDR yields when the rules are loaded again and the form
+// ListBlockedSubnets reports.
+func maskedSubnet(ipnet *net.IPNet) *net.IPNet {
+	if ip := ipnet.IP.Mask(ipnet.Mask); ip != nil {
+		return &net.IPNet{IP: ip, Mask: ipnet.Mask}
+	}
+	return ipnet
+}
+
 func (cg *BasicConnectionGater) BlockSubnet(ipnet *net.IPNet) error {
+	ipnet = maskedSubnet(ipnet)
 	if cg.ds != nil {
 		err := cg.ds.Put(context.Background(), datastore.NewKey(keySubnet+ipnet.String()), []byte(ipnet.String()))
 		if err != nil {
@@ -242,6 +253,7 @@ func (cg *BasicConnectionGater) BlockSubnet(ipnet *net.IPNet) error {
 
 // UnblockSubnet removes an IP address from the set of blocked addresses
 func (cg *BasicConnectionGater) UnblockSubnet(ipnet *net.IPNet) error {
+	ipnet = maskedSubnet(ipnet)
 	if cg.ds != nil {
 		err := cg.ds.Delete(context.Background(), datastore.NewKey(keySubnet+ipnet.String()))
 		if err != nil {
